@@ -139,7 +139,7 @@ theorem c11_json_fixed_only_declared_size (c : TCfg) (top : Bool) (scope : List 
     (size : Nat) (hd : c.env.find n = some (.fixed size)) (t : Json.JVal) (v : Value) (m : List Bytes)
     (h : treeRead c top scope (.ref n) t = .ok v m) : ∃ b, v = .fixed b ∧ b.length = size := by
   simp only [treeRead, hd, bindT] at h
-  cases hp : jsonPrim .bytes t with
+  cases hp : c.sem.prim .bytes t with
   | ok x mm =>
     simp only [hp] at h
     cases x <;> simp at h
